@@ -505,7 +505,78 @@ Section EngineProofs.
     intros H. unfold Purity.run, resp. rewrite !fold_left_app. simpl.
     apply step_resp. rewrite (run_templates rs (e, RNone)), (run_templates rs' (e', RNone)). exact H.
   Qed.
+
+  (* ---- a process: several engine instances, requests addressed to any of them ---- *)
+  Notation pstep := (pstep tpl exec_state new_exec run_exec output).
+  Notation prun := (prun tpl exec_state new_exec run_exec output).
+
+  Definition tsets (p : process tpl) : list (list (bytes * tpl)) := map (templates tpl) p.
+
+  Lemma set_nth_tsets : forall (p : process tpl) i e e',
+    nth_error p i = Some e -> templates tpl e' = templates tpl e ->
+    tsets (set_nth tpl p i e') = tsets p.
+  Proof.
+    induction p as [|x p IH]; intros i e e' Hn Ht; destruct i; simpl in *; try discriminate.
+    - inversion Hn; subst. unfold tsets. simpl. rewrite Ht. reflexivity.
+    - unfold tsets in *. simpl. f_equal. eapply IH; eauto.
+  Qed.
+
+  Lemma pstep_tsets p ir : tsets (fst (pstep p ir)) = tsets p.
+  Proof.
+    unfold Purity.pstep. destruct (nth_error p (fst ir)) as [e|] eqn:Hn; simpl; [|reflexivity].
+    eapply set_nth_tsets; [exact Hn|apply step_templates].
+  Qed.
+
+  Lemma prun_tsets : forall irs s,
+    tsets (fst (fold_left (fun s ir => pstep (fst s) ir) irs s)) = tsets (fst s).
+  Proof.
+    induction irs as [|ir irs IH]; intros s; simpl; [reflexivity|].
+    rewrite IH. apply pstep_tsets.
+  Qed.
+
+  Lemma nth_tsets (p : process tpl) i :
+    nth_error (tsets p) i = option_map (templates tpl) (nth_error p i).
+  Proof. unfold tsets. apply nth_error_map. Qed.
+
+  (* the answer depends on the template set of the addressed engine and the request alone *)
+  Lemma pstep_resp p p' i j r :
+    option_map (templates tpl) (nth_error p i) = option_map (templates tpl) (nth_error p' j) ->
+    snd (pstep p (i, r)) = snd (pstep p' (j, r)).
+  Proof.
+    unfold Purity.pstep. simpl.
+    destruct (nth_error p i) as [e|], (nth_error p' j) as [e'|]; simpl; intros H; try discriminate.
+    - inversion H. apply step_resp. assumption.
+    - reflexivity.
+  Qed.
+
+  Lemma process_history_independent (p p' : process tpl) irs irs' i j r :
+    option_map (templates tpl) (nth_error p i) = option_map (templates tpl) (nth_error p' j) ->
+    presp tpl (prun p (irs ++ [(i, r)])) = presp tpl (prun p' (irs' ++ [(j, r)])).
+  Proof.
+    intros H. unfold Purity.prun, presp. rewrite !fold_left_app. simpl.
+    apply pstep_resp.
+    rewrite <- !nth_tsets.
+    rewrite (prun_tsets irs (p, RNone)), (prun_tsets irs' (p', RNone)). simpl.
+    rewrite !nth_tsets. exact H.
+  Qed.
+
+  (* non-vacuity is shown below, outside the section, on a concrete executor *)
 End EngineProofs.
+
+(* a process of two engines with one template each; the executor prints the data's text.  After any
+   history on either engine the addressed engine answers as in a new process *)
+Example process_history_example :
+  let tplT := bytes in
+  let new_exec := fun (t : tplT) (d : gdata) => (t, d) in
+  let run_exec := fun (s : tplT * gdata) => s in
+  let output := fun (s : tplT * gdata) => Some (fst s ++ text_of id_oracle (convert id_oracle (snd s))) in
+  let e1 := mk_engine tplT [(B "t", B "T:")] [] in
+  let e2 := mk_engine tplT [(B "t", B "T:"); (B "u", B "U:")] [] in
+  let r := mk_request (B "t") (GStr (B "x")) in
+  presp tplT (prun tplT (tplT * gdata) new_exec run_exec output [e1; e2]
+                   [(0, mk_request (B "t") (GStr (B "other"))); (1, mk_request (B "u") GNil); (5, r); (1, r)])
+  = ROut (Some (B "T:x")).
+Proof. vm_compute. reflexivity. Qed.
 
 (* ======================================================================== (c) aliasing *)
 
